@@ -57,7 +57,7 @@ def case_st(draw):
     dvars = []
     for _ in range(nv):
         i = draw(st.integers(0, len(names) - 1))
-        how = draw(st.sampled_from(["name", "index", "indet", "symbol", "variable"]))
+        how = draw(st.sampled_from(["name", "index", "index-numpy", "indet", "symbol", "variable"]))
         dvars.append({"i": i, "how": how})
     opts = {f: draw(st.booleans()) for f in FLAGS}
     if draw(st.integers(0, 3)) == 0:
@@ -79,6 +79,8 @@ def designate(numpoly, p, names, dv):
         return name
     if how == "index":
         return i
+    if how == "index-numpy":  # a positional index as numpy hands them out (numpy.argmax, arange()[k], ...)
+        return numpy.int64(i)
     if how == "indet":
         return p.indeterminants[i]
     if how == "symbol":
